@@ -1058,6 +1058,11 @@ impl<'a> CompactionIterator<'a> {
 		let drop_latest_delete = self.is_bottom_level && !delete_hidden_from_a_snapshot;
 		let latest_is_delete_at_bottom = drop_latest_delete && latest_delete_seq.is_some();
 
+		// Hard DELETE semantics with versioning: the marker erases every version
+		// below it. Holds the sequence number of the nearest DELETE above the
+		// current version while walking from newest to oldest.
+		let mut newer_hard_delete: Option<u64> = None;
+
 		// REPLACE semantics: delete all older versions regardless of retention.
 		// Holds the sequence number of the nearest REPLACE above the current
 		// version while walking from newest to oldest, so that a REPLACE only
@@ -1164,7 +1169,21 @@ impl<'a> CompactionIterator<'a> {
 				// versions are stale
 				true
 			} else if is_hard_delete {
-				// Older DELETE: always stale (only latest tombstone matters)
+				// Older DELETE. Without versioning only the latest tombstone matters.
+				// With versioning it is a barrier for the versions below it, which may
+				// also sit in deeper levels: it can only go at the bottom level, and
+				// only when no snapshot predates it.
+				!self.enable_versioning
+					|| (self.is_bottom_level
+						&& !self.snapshots.first().is_some_and(|&oldest| oldest < seq_num))
+			} else if self.enable_versioning
+				&& self.is_bottom_level
+				&& newer_hard_delete
+					.is_some_and(|d| !self.snapshots.first().is_some_and(|&oldest| oldest < d))
+			{
+				// Below a hard DELETE whose marker is dropped in this very pass: these
+				// versions are erased for good and must go with it, or they would come
+				// back once the marker is gone.
 				true
 			} else {
 				// Older PUT: check versioning and retention
@@ -1212,6 +1231,9 @@ impl<'a> CompactionIterator<'a> {
 			newer_version_visibility = Some(current_visibility);
 			if is_replace {
 				newer_replace = Some(seq_num);
+			}
+			if is_hard_delete {
+				newer_hard_delete = Some(seq_num);
 			}
 		}
 
